@@ -90,8 +90,9 @@ KF_LineFitPerpEnd(env, q, v, got) == LET t == TrueTan(env, q, v) IN
    /\ env.E[q].straight
    /\ ~(Close(got[1], t[1], TolTangent) /\ Close(got[2], t[2], TolTangent))
 \* known finding: the default ("dlite") circle fit loses accuracy when the tissue lies more than ~500 tissue
-\* sizes away from the origin (measured: errors up to 0.7 at 10^4 sizes; <= 3e-3 at 10^3)
-KF_FarFromOrigin(env, fit) == fit = "dlite" /\ env.offset_sizes > 500
+\* sizes away from the origin (measured on arcs: <= 1e-9 up to 3000 sizes, 1e-7 at 5000, several 1e-3 up to 0.7 at 10^4;
+\* the threshold was 500 until a seeded change that loses accuracy a thousand times earlier hid behind it)
+KF_FarFromOrigin(env, fit) == fit = "dlite" /\ env.offset_sizes > 4000
 CoefKF(m, f, env, fm, ki, fit) ==
   LET q == PhysOf(env, f.ifaces[ki[2]])
       row == fm.rows[ki[1]] IN
